@@ -316,14 +316,37 @@ var notSchemas = []string{"", " ", "\n", "null", " null ", "0", "1", "-1", "1.5"
 var notJSON = []string{"{", "}", "{]", `{"type":`, "nul", "nil", "undefined", `{'type':'string'}`, `{"type":"string","details":{"type":"string"}} x`,
 	`{"type":"string","details":{"type":"string"}}{}`, "\x00", "\xff\xfe", "// c\n{}", `{"a":1,}`}
 
+func hasIndexedMember(t T) bool {
+	for _, c := range t.Components {
+		if c.Indexed || hasIndexedMember(c) {
+			return true
+		}
+	}
+	return false
+}
+
 func genDef(rt *rapid.T) (DefCase, bool, []string) {
 	c := DefCase{
 		Target: rapid.SampledFrom([]string{"method", "method", "event", "event", "error"}).Draw(rt, "def.target"),
 		Via:    rapid.SampledFrom([]string{"struct", "doc"}).Draw(rt, "def.via"),
 	}
 	c.OmitEmpty = rapid.Bool().Draw(rt, "def.omitEmpty")
+	nestedIdx := false
 	models := func(label string, n, depth int) []DefParam {
 		ts := genParamsN(rt, label, n, depth)
+		pct := 15
+		if c.Target == "event" {
+			pct = 45
+		}
+		markMembersIndexed(rt, label, ts, pct)
+		if c.Target != "event" && len(ts) > 0 && rare(rt, label+".topidx", 60) {
+			ts[rapid.IntRange(0, len(ts)-1).Draw(rt, label+".topidx.at")].Indexed = true
+		}
+		for i := range ts {
+			if hasIndexedMember(ts[i]) {
+				nestedIdx = true
+			}
+		}
 		out := make([]DefParam, len(ts))
 		for i := range ts {
 			t := ts[i]
@@ -359,6 +382,9 @@ func genDef(rt *rapid.T) (DefCase, bool, []string) {
 	}
 	total := len(c.Params) + len(c.Returns)
 	cl = append(cl, "def:target:"+c.Target)
+	if nestedIdx {
+		cl = append(cl, "def:indexed-tuple-member", "def:indexed-tuple-member:"+c.Target)
+	}
 	if total == 0 || rapid.IntRange(0, 9).Draw(rt, "def.mode") < 3 {
 		return c, total >= 2, append(cl, "def:via-"+c.Via, "def:all-parameters-well-formed")
 	}
